@@ -74,14 +74,20 @@ CHECKS = {
     "C02": dict(
         category="translation_validation",
         text=("Every specification the real front end produces (all split modes, rules on/off, a systematic corpus of access pairs at "
-              "constant/unaligned/symbolic+constant offsets) is given to Lean: `Spec.firstConflict` demands that any two accesses whose "
-              "ranges or keys are not provably disjoint (Norm.disjoint_sound, keysDiffer_sound) and one of which writes are ordered by "
-              "the declared dependences plus data flow, and `Spec.scheduleMatches` compares the specification evaluated under the "
-              "canonical, reversed and random admissible schedules with the symbolic execution of the block through the proved "
-              "normaliser. schedule_indep (kernel-checked) is the abstract reason why ordered conflicts make all admissible schedules "
-              "agree; its instantiation to evalSpec is argued in DESIGN.md, not proved (partial)."),
+              "constant/unaligned/symbolic+constant offsets) is given to Lean, which evaluates the executable premises of the "
+              "kernel-checked theorem Spec.spec_denotes_block_under_every_schedule: load-result names do not clash (namesOk), the "
+              "schedules are duplicate-free permutations, every pair of operations that conflicts (data flow, same output, or "
+              "accesses not provably disjoint by Norm.disjoint_sound / keysDiffer_sound with a write) is connected by the declared "
+              "dependences plus data flow (conflictsOrdered), the schedules respect those pairs (respectsB), and the specification "
+              "evaluated under a schedule equals the symbolic execution of the block through the proved normaliser "
+              "(scheduleMatches_sound). The theorem then gives, for EVERY schedule respecting the pairs, every well-formed "
+              "environment and every sufficiently deep state, exec(B,sigma) = the state the specification denotes. The proof goes "
+              "through actEff_comm (non-conflicting operations commute), schedule_indep, and the simulation runSchedule_sim between "
+              "the symbolic evaluation and the concrete scheduled run. Canonical, reversed and random admissible schedules are "
+              "additionally evaluated one by one. What is validated, not proved: that the Python generator emits such a "
+              "specification for every block (sampled), and the JSON-to-model serialisation."),
         design_ref="DESIGN.md section 8, C02",
-        technique="Lean conflict-ordering check + schedule evaluation against proved symbolic execution, over real specifications; abstract schedule-independence theorem",
+        technique="Lean theorem (schedule independence + proved validator) whose executable premises are checked on every specification the real front end emits",
     ),
     "C04": dict(
         category="translation_validation",
